@@ -18,6 +18,7 @@ import (
 	gpb "github.com/openconfig/gnmi/proto/gnmi"
 	"github.com/openconfig/ygot/internal/verifharness/reg"
 	"github.com/openconfig/ygot/ygot"
+	"github.com/openconfig/ygot/ytypes"
 	"google.golang.org/protobuf/proto"
 )
 
@@ -66,6 +67,7 @@ func gnDeleteSweep(p *reg.Pkg, rng *rand.Rand, trees, maxLeaves int, tf *treeFil
 		var paths map[string]*gpb.Path
 		var vals map[string]string
 		var err error
+		nAmb := 0
 		for try := 0; try < 12; try++ {
 			g.pField = 0.55 + 0.3*rng.Float64()
 			cand := g.genTree()
@@ -75,6 +77,7 @@ func gnDeleteSweep(p *reg.Pkg, rng *rand.Rand, trees, maxLeaves int, tf *treeFil
 					s.field().Set(reflect.Zero(s.sf.Type))
 				}
 			}
+			amb := gnAmbiguousOrderedUnionKeys(p, cand)
 			ps, vs, e := gnLeafUpdates(cand)
 			if e != nil {
 				if root == nil {
@@ -82,10 +85,11 @@ func gnDeleteSweep(p *reg.Pkg, rng *rand.Rand, trees, maxLeaves int, tf *treeFil
 				}
 				continue
 			}
-			if root == nil || len(ps) > len(paths) {
+			if root == nil || len(ps) > len(paths) || (amb > 0 && nAmb == 0) {
 				root, paths, vals, err = cand, ps, vs, nil
+				nAmb = amb
 			}
-			if len(paths) >= 60 {
+			if len(paths) >= 60 && (nAmb > 0 || try >= 6) {
 				break
 			}
 		}
@@ -101,13 +105,49 @@ func gnDeleteSweep(p *reg.Pkg, rng *rand.Rand, trees, maxLeaves int, tf *treeFil
 			}
 		}
 		sort.Strings(keys)
-		sum.count("delete_sweep_tree_leaves", fmt.Sprintf("%s: %d leaves, %d not keys", p.Name, len(paths), len(keys)))
+		sum.count("delete_sweep_tree_leaves", fmt.Sprintf("%s: %d leaves, %d not keys, %d ordered lists with an ambiguous union key", p.Name, len(paths), len(keys), nAmb))
 		rng.Shuffle(len(keys), func(i, j int) { keys[i], keys[j] = keys[j], keys[i] })
 		if len(keys) > maxLeaves {
 			keys = keys[:maxLeaves]
 		}
 		pre := treeTerm(root)
 		for i, k := range keys {
+			if strings.Contains(vals[k], "leaflist_val") {
+				// C10: SetNode of the empty JSON array on a leaf-list that holds values
+				c2 := mgClone(root)
+				in2 := map[string]interface{}{"pkg": p.Name, "path": k, "op": "set", "site": "sweep", "value": "json_ietf_val []", "tree_before": pre, "replay": replay}
+				tv := &gpb.TypedValue{Value: &gpb.TypedValue_JsonIetfVal{JsonIetfVal: []byte("[]")}}
+				var serr error
+				func() {
+					defer func() {
+						if r := recover(); r != nil {
+							serr = fmt.Errorf("panic: %v", r)
+						}
+					}()
+					serr = ytypes.SetNode(schema, c2, proto.Clone(paths[k]).(*gpb.Path), tv, &ytypes.InitMissingElements{})
+				}()
+				sum.OracleRuns++
+				sum.count("delete_sweep", "leaf-list set to the empty JSON array")
+				if serr == nil {
+					if _, post2, e2 := gnLeafUpdates(c2); e2 == nil {
+						var bad []string
+						for q, v := range vals {
+							if q == k && post2[q] != "" {
+								bad = append(bad, q+" still holds "+post2[q])
+							} else if q != k && post2[q] != v {
+								bad = append(bad, q+" changed")
+							}
+						}
+						sort.Strings(bad)
+						if len(bad) > 0 {
+							if len(bad) > 6 {
+								bad = append(bad[:6], "...")
+							}
+							sum.finding(Finding{Signature: "setnode/value-not-stored", What: "after SetNode of the empty JSON array on " + k + ": " + strings.Join(bad, " ; "), Input: in2})
+						}
+					}
+				}
+			}
 			c := mgClone(root)
 			path := proto.Clone(paths[k]).(*gpb.Path)
 			in := map[string]interface{}{"pkg": p.Name, "path": k, "op": "delete", "site": "sweep", "tree_before": pre, "replay": replay}
@@ -261,4 +301,45 @@ func gnAtomicEmptyCases(p *reg.Pkg, rng *rand.Rand, maxCases int, tf *treeFile, 
 			sum.finding(Finding{Signature: "setrequest/atomic-empty-not-applied", What: "after an atomic notification without updates at " + pfs + ": " + strings.Join(bad, " ; "), Input: in})
 		}
 	}
+}
+
+// gnAmbiguousOrderedUnionKeys: every non-empty ordered list keyed by a union that has a string
+// member and a numeric member gets one more entry, a copy of its first one under the STRING key
+// "10" (what RFC7951 JSON "k":"10" unmarshals to). Its path key reads 10; the entry must be found
+// by the text of its key, as every other entry is.
+func gnAmbiguousOrderedUnionKeys(p *reg.Pkg, root ygot.GoStruct) (n int) {
+	g := &treeGen{}
+	for _, s := range mgSlots(p, root) {
+		if s.kind != "omap" || s.inUnk {
+			continue
+		}
+		fv := s.field()
+		entryT := entryTypeOfOrderedMap(s.sf.Type)
+		kfs := g.keyFieldNames(entryT, s.entry)
+		if len(kfs) != 1 {
+			continue
+		}
+		kf, _ := entryT.FieldByName(kfs[0])
+		if kf.Type.Kind() != reflect.Interface {
+			continue
+		}
+		es := orderedEntries(fv.Interface().(ygot.GoOrderedMap))
+		if len(es) == 0 {
+			continue
+		}
+		ent := mgCloneValue(es[0].entry)
+		to := ent.MethodByName("To_" + kf.Type.Name())
+		if !to.IsValid() {
+			continue
+		}
+		str := to.Call([]reflect.Value{reflect.ValueOf("10")})
+		num := to.Call([]reflect.Value{reflect.ValueOf(uint32(10))})
+		if !str[1].IsNil() || !num[1].IsNil() || str[0].Elem().Kind() != reflect.String {
+			continue
+		}
+		ent.Elem().FieldByName(kfs[0]).Set(str[0])
+		fv.MethodByName("Append").Call([]reflect.Value{ent}) // a duplicate is rejected: fine
+		n++
+	}
+	return n
 }
